@@ -869,6 +869,29 @@ def _conv_list(st, cls):
     return "ok " + ",".join(out)
 
 
+@op("doc_rows")
+def _doc_rows(st):
+    """every 'Equivalent in <ref>' row of the documentation tables against the
+    conversion the library computes now"""
+    import re
+    import translate
+    _PAUSED[0] = True
+    try:
+        import quantity.predefined as pre
+    finally:
+        _PAUSED[0] = False
+    bad, n = [], 0
+    for section, header, cells in translate.parse_doc_tables(pre.__doc__):
+        if "Equivalent in" in header and len(cells) == 4:
+            sym, _name, _definition, eq = cells
+            ref = re.search(r"Equivalent in '([^']+)'", header).group(1)
+            n += 1
+            got = (1 * Unit(sym)).convert(Unit(ref)).amount
+            if _F(got) != _F(eq):
+                bad.append(f"{sym}:{eq}!={rat(got)}")
+    return f"ok rows={n} bad={','.join(bad) if bad else '-'}"
+
+
 @op("prefix")
 def _prefix(st, const):
     import quantity.si_prefixes as sp
